@@ -81,13 +81,14 @@ def ppo_agent(obs_kind, gn, ln, fresh=False):
         obs = spaces.Box(-1000.0, 1000.0, (4,), np.float32) if obs_kind == "box" else spaces.Discrete(NCODE)
         info = {}
         try:
-            a = PPO(obs, spaces.Discrete(NCODE), net_config=NET, batch_size=4, update_epochs=1,
-                    gamma=gn / 2, gae_lambda=ln / 2)
+            a = PPO(obs, spaces.Discrete(NCODE), net_config=NET, batch_size=4, update_epochs=1)
             info["share_encoders"] = True
         except Exception:
-            a = PPO(obs, spaces.Discrete(NCODE), net_config=NET, batch_size=4, update_epochs=1,
-                    gamma=gn / 2, gae_lambda=ln / 2, share_encoders=False)
+            a = PPO(obs, spaces.Discrete(NCODE), net_config=NET, batch_size=4, update_epochs=1, share_encoders=False)
             info["share_encoders"] = False
+        # the discount factors are set on the constructed agent (as a hyperparameter mutation does): the
+        # estimates must follow the agent's CURRENT gamma / lambda
+        a.gamma, a.gae_lambda = gn / 2, ln / 2
         a._verif_info = info
         if fresh:
             return a
@@ -102,7 +103,8 @@ def ippo_agent(ids, gn, ln, fresh=False):
     key = ("ippo", tuple(ids), gn, ln)
     if fresh or key not in _AGENTS:
         a = IPPO([spaces.Box(-1000.0, 1000.0, (4,), np.float32) for _ in ids], [spaces.Discrete(NCODE) for _ in ids],
-                 agent_ids=list(ids), net_config=NET, batch_size=4, update_epochs=1, gamma=gn / 2, gae_lambda=ln / 2)
+                 agent_ids=list(ids), net_config=NET, batch_size=4, update_epochs=1)
+        a.gamma, a.gae_lambda = gn / 2, ln / 2
         if fresh:
             return a
         _AGENTS[key] = a
